@@ -48,7 +48,7 @@ META = {
                           'child_processes', 'sibling_histories', 'returned_dict_edited_in_place',
                           'earlier_unpickled_contexts_requeried', 'same_label_histories'],
     'shards': {'quick': 16, 'thorough': 16},
-    'case_cpu_s': {'quick': 600, 'thorough': 3000},
+    'case_cpu_s': {'quick': 3600, 'thorough': 14400},
     'assumptions': ['byte-level layout of JSON/pickle and container types (list vs tuple) are not judged'],
 }
 
